@@ -84,8 +84,21 @@ class Runner:
         if len(self.failures) < 5:
             self.failures.append({'name': name, 'detail': detail, 'input': inp})
 
+    def skip(self, text, exc):
+        """a generated input the library refused to parse: counted, never silently dropped (a generator that mostly produces
+        rejected inputs checks nothing)"""
+        self.skipped = getattr(self, 'skipped', 0) + 1
+        if not hasattr(self, 'skip_samples'):
+            self.skip_samples = []
+        if len(self.skip_samples) < 3:
+            self.skip_samples.append(f'{text!r}: {type(exc).__name__}: {str(exc)[:120]}')
+
     def result(self):
-        return {'cases': self.cases, 'distinct': len(self.distinct), 'failures': self.failures, 'samples': self.samples}
+        out = {'cases': self.cases, 'distinct': len(self.distinct), 'failures': self.failures, 'samples': self.samples, 'skipped': getattr(self, 'skipped', 0)}
+        sk = out['skipped']
+        if sk and sk > 0.25 * (sk + self.cases):
+            out['error'] = f'{sk} of {sk + self.cases} generated inputs were rejected before the check (generator out of tune): {getattr(self, "skip_samples", [])}'
+        return out
 
 
 # ------------------------------------------------------------------------------------------------ C02
